@@ -2,6 +2,7 @@ package main
 
 import (
 	"go/constant"
+	"go/token"
 	"regexp"
 	"strings"
 
@@ -230,6 +231,23 @@ func init() {
 			if v == "false" {
 				continue
 			}
+			// "no item is live", said with the library's search: !slices.ContainsFunc(items, item is not expired)
+			if u, ok := rs.Val.(*ssa.UnOp); ok && u.Op == token.NOT {
+				if c, ok := u.X.(*ssa.Call); ok && calleeName(&c.Call) == "slices.ContainsFunc" && e.X(fn, c.Call.Args[0]) == "recv.items" {
+					pred := e.FuncValue(c.Call.Args[1])
+					okPred := pred != nil
+					if pred != nil {
+						for _, ret := range (&Walk{Fn: pred}).FromEntry().Returns() {
+							if !regexpMatch(`^!\(\*am/limit\.item\[V\]\)\.expired\(p0, .*\)$`, e.X(pred, ret.Results[0])) {
+								okPred = false
+							}
+						}
+					}
+					trues++
+					o.Check(okPred, "stale-live-skipped", "IsStale searches the items for something other than 'not expired': "+clip(e.X(fn, c)), rs.Instr)
+					continue
+				}
+			}
 			// the answer joined from several paths: each way of answering is judged on the path it comes from
 			if alts := AltsOf(rs.Val); len(alts) > 1 {
 				allConst := true
@@ -297,7 +315,26 @@ func init() {
 			if isBuiltinCall("delete")(in) {
 				c := in.(*ssa.Call)
 				o.Site(in, "drop bucket")
-				o.Guarded(in, "drop-guard", "dropping a limit bucket", LRe(`\(\*am/limit\.Bucket\[V\]\)\.IsStale\(next\(range\(recv\.limits\)\)#2\)`, true))
+				staleLit := LRe(`\(\*am/limit\.Bucket\[V\]\)\.IsStale\(next\(range\(recv\.limits\)\)#2\)`, true)
+				// the names found stale collected first and dropped afterwards: every collected name was found stale
+				if u, isU := c.Call.Args[1].(*ssa.UnOp); isU {
+					if ia, isIA := u.X.(*ssa.IndexAddr); isIA {
+						if _, parts := e.AppendParts(ia.X); len(parts) > 0 {
+							okAll := e.X(gc, c.Call.Args[0]) == "recv.limits"
+							for _, p := range parts {
+								if p.Spread || e.X(gc, p.V) != "next(range(recv.limits))#1" || !e.OnlyUnder(p.Call, staleLit) {
+									okAll = false
+								}
+							}
+							if okAll {
+								o.Checks += 2
+								o.Passed += 2
+								continue
+							}
+						}
+					}
+				}
+				o.Guarded(in, "drop-guard", "dropping a limit bucket", staleLit)
 				o.Check(e.X(gc, c.Call.Args[0]) == "recv.limits" && e.X(gc, c.Call.Args[1]) == "next(range(recv.limits))#1", "drop-key", "the dropped bucket must be the one found stale", in)
 			}
 		}
